@@ -39,6 +39,10 @@ class FortranRegularExpressions:
     END_MOD: Pattern = compile(r"MODULE", I)
     SUBMOD: Pattern = compile(r"[ ]*SUBMODULE[ ]*\(", I)
     END_SMOD: Pattern = compile(r"SUBMODULE", I)
+    # ancestor [: parent] ) name
+    SUBMOD_NAMES: Pattern = compile(
+        r"[ ]*([a-z_]\w*)[ ]*(?::[ ]*([a-z_]\w*)[ ]*)?\)[ ]*([a-z_]\w*)?", I
+    )
     END_PRO: Pattern = compile(r"(MODULE)?[ ]*PROCEDURE", I)
     BLOCK: Pattern = compile(r"[ ]*([a-z_]\w*[ ]*:[ ]*)?(?:BLOCK|CRITICAL)(?!\w)", I)
     END_BLOCK: Pattern = compile(r"BLOCK|CRITICAL", I)
